@@ -19,7 +19,7 @@ B = 'yui_kh::khi::internal::v2::builder::SymTngBuilder::<R>::'
 
 
 def sk(t):
-    return re.sub(r'#\d+\.\d+', '', show(t))
+    return re.sub(r'#(?:i\d+:)?\d+\.\d+', '', show(t))
 
 
 def lit(t):
@@ -206,10 +206,24 @@ def check_half_grouping(facts, rep):
         rep.indet('E7b.K6: off_axis_crossings not found')
         return
     rep.saw(b)
-    unions = [c for c in b.calls() if (c.callee or c.generic or '').split('::')[-1] == 'union']
+    # the grouping may live in a private helper of the builder: follow non-pub callees of the same impl (depth <= 2)
+    cands = [b]
+    for _ in range(2):
+        for cb in list(cands):
+            for c in cb.calls():
+                t = facts.bodies.get(c.callee or '')
+                if t is not None and t not in cands and t.defp.startswith(B) and t.d.get('vis', 'pub') != 'pub' and t.kind != 'Closure':
+                    cands.append(t)
+    with_union = [cb for cb in cands if any((c.callee or c.generic or '').split('::')[-1] == 'union' for c in cb.calls())]
     inst = 'SymTngBuilder::off_axis_crossings|union over all adjacent pairs (x, earlier y)'
+    if len(with_union) != 1:
+        rep.indet('E7b.K6: %d functions under off_axis_crossings call union' % len(with_union))
+        return
+    b = with_union[0]
+    rep.saw(b)
+    unions = [c for c in b.calls() if (c.callee or c.generic or '').split('::')[-1] == 'union']
     if len(unions) != 1:
-        rep.indet('E7b.K6: %d union calls in off_axis_crossings' % len(unions))
+        rep.indet('E7b.K6: %d union calls in %s' % (len(unions), b.defp.split('::')[-1]))
         return
     ub = unions[0].bb
     dom = b.dominators()
@@ -247,7 +261,7 @@ def check_cone(facts, rep):
     rep.saw(b)
 
     def sk2(t):
-        return re.sub(r'\^_ref__', '^', re.sub(r'#\d+\.\d+', '', show(t, -1000))).replace('&', '').replace('*', '')
+        return re.sub(r'\^_ref__', '^', re.sub(r'#(?:i\d+:)?\d+\.\d+', '', show(t, -1000))).replace('&', '').replace('*', '')
 
     def wrap_of(clo, owner):
         """closure term -> 'B' / 'Q' when it is |x| KhIGen::B(*x) / Q(*x)"""
@@ -263,13 +277,24 @@ def check_cone(facts, rep):
         if rr == {'KhIGen::Q{0: arg2}'}:
             return 'Q'
         return None
-    top = [p.ret for p in SymEx(b).run() if p.end == 'return']
+    top = [p.ret for p in SymEx(b, havoc_loops=True).run() if p.end == 'return']
     probs = []
     d_clo = gen_clo = None
     if len(top) == 1:
         s = sk2(top[0])
-        if 'generate(new(start(h_range(arg1)), add(end(h_range(arg1)), 1)),' not in s:
-            probs.append('the homological range is not h_range.start ..= h_range.end + 1 (%s)' % s[:120])
+        # h_range read through start() / end() or through into_inner(); + 1 as the trait call or the checked primitive
+        s = re.sub(r'into_inner\((h_range\(arg1\))\)\.0', r'start(\1)', s)
+        s = re.sub(r'into_inner\((h_range\(arg1\))\)\.1', r'end(\1)', s)
+        s = re.sub(r'AddWithOverflow\(([^()]*(?:\([^()]*(?:\([^()]*\))?[^()]*\))?[^()]*), (\d+)\)\.0', r'add(\1, \2)', s)
+        s = re.sub(r'SubWithOverflow\(([^()]*(?:\([^()]*(?:\([^()]*\))?[^()]*\))?[^()]*), (\d+)\)\.0', r'sub(\1, \2)', s)
+        m = re.search(r'generate\(new\(((?:start|end|add|sub)\(.*?\)), ((?:start|end|add|sub)\(.*?\))\), closure<', s)
+        if 'generate(new(start(h_range(arg1)), add(end(h_range(arg1)), 1)),' in s:
+            pass
+        elif m and re.match(r'^(start|end|add|sub|h_range|arg1|\d+|[(), ])*$', m.group(1) + m.group(2)):
+            probs.append('the homological range is %s ..= %s, expected h_range.start ..= h_range.end + 1' % (m.group(1), m.group(2)))
+        else:
+            rep.indet('E7b.K7: the homological range of from_kh_complex is outside the recognised fragment: %s' % s[:160])
+            return
     else:
         rep.indet('E7b.K7: from_kh_complex has %d return shapes' % len(top))
         return
@@ -413,7 +438,7 @@ def check_inv_link(facts, rep):
         rep.ok('E7b.K8-inv-link', inst, 'checked for even n <= 24')
     # (c)
     def dk(t):
-        return re.sub(r'#\d+\.\d+', '', show(t, -1000))
+        return re.sub(r'#(?:i\d+:)?\d+\.\d+', '', show(t, -1000))
     rr = [dk(p.ret) for p in SymEx(mb).run() if p.end == 'return']
     pair = None
     for k, b2 in facts.bodies.items():
@@ -440,7 +465,7 @@ def check_sym_base_point(facts, rep):
     rep.saw(b)
 
     def dk(t):
-        return re.sub(r'#\d+\.\d+', '', show(t, -1000)).replace('&', '').replace('*', '')
+        return re.sub(r'#(?:i\d+:)?\d+\.\d+', '', show(t, -1000)).replace('&', '').replace('*', '')
     got = {}
     for p in SymEx(b, havoc_loops=True, max_paths=5000).run():
         if p.end != 'return':
